@@ -3202,6 +3202,10 @@ func (bc *Blockchain) IsTxStillRelevant(t *transaction.Transaction, txpool *memp
 	} else if txpool.HasConflicts(t, bc) {
 		return false
 	}
+	// A signer may have been blocked since the transaction was pooled.
+	if err := bc.policy.CheckPolicy(bc.dao, t); err != nil {
+		return false
+	}
 	if err := bc.verifyTxAttributes(bc.dao, t, isPartialTx); err != nil {
 		return false
 	}
